@@ -367,6 +367,16 @@ fn list_inhabited(
     neg: &Option<Rc<Conjunction>>,
     builder: &mut SemTypeContext,
 ) -> Result<ListInhabited> {
+    #[cfg(feature = "beff_verif")]
+    {
+        let mut n = 0;
+        let mut at = neg.as_ref();
+        while let Some(c) = at {
+            n += 1;
+            at = c.next.as_ref();
+        }
+        crate::verif_probe::emptiness_step(n);
+    }
     match neg {
         None => Ok(ListInhabited::Yes),
         Some(neg) => {
